@@ -2197,4 +2197,342 @@ theorem powmGo_correct (ep mp : List Nat) (bneg : Bool) (x : Nat) (hep : Norm ep
           exact hPm
 
 
+
+/-! ### mpz_n_pow_ui -/
+
+/-- left-to-right square-and-multiply over a list of bits (most significant first). -/
+theorem sqrMulLoop_spec (b : Nat) : ∀ (bits : List Bool) (r h : Nat), r = b ^ h →
+    sqrMulLoop b bits r = b ^ (bits.foldl (fun a bit => 2 * a + (if bit then 1 else 0)) h)
+  | [], r, h, hr => by simpa [sqrMulLoop] using hr
+  | bit :: rest, r, h, hr => by
+    simp only [sqrMulLoop, List.foldl_cons]
+    apply sqrMulLoop_spec b rest
+    cases bit with
+    | true => simp only [if_true]; rw [hr, ← pow_add, ← pow_succ]; congr 1; omega
+    | false => simp only [Bool.false_eq_true, if_false]; rw [hr, ← pow_add]; congr 1; omega
+
+/-- the bits of `e` below position `L`, most significant first, fold back to `e mod 2^L`. -/
+theorem lowerBits_fold (e : Nat) : ∀ (L h : Nat),
+    ((List.range L).reverse.map (fun i => e.testBit i)).foldl (fun a bit => 2 * a + (if bit then 1 else 0)) h
+      = h * 2 ^ L + e % 2 ^ L
+  | 0, h => by simp [Nat.mod_one]
+  | L + 1, h => by
+    rw [List.range_succ, List.reverse_append, List.reverse_singleton, List.singleton_append, List.map_cons,
+      List.foldl_cons, lowerBits_fold e L]
+    have hbit : (if e.testBit L = true then 1 else 0) = e / 2 ^ L % 2 := by
+      rw [Nat.testBit_eq_decide_div_mod_eq]
+      by_cases h1 : e / 2 ^ L % 2 = 1
+      · simp [h1]
+      · have : e / 2 ^ L % 2 = 0 := by omega
+        simp [this]
+    rw [hbit, Nat.mod_pow_succ (k := L), pow_succ]; ring
+
+theorem lowerBits_spec (e : Nat) (he : e ≠ 0) :
+    (lowerBits e).foldl (fun a bit => 2 * a + (if bit then 1 else 0)) 1 = e := by
+  unfold lowerBits
+  rw [lowerBits_fold, Nat.one_mul]
+  have h1 : 2 ^ e.log2 ≤ e := Nat.log2_self_le he
+  have h2 : e < 2 ^ (e.log2 + 1) := Nat.lt_log2_self
+  rw [pow_succ] at h2
+  have : e % 2 ^ e.log2 = e - 2 ^ e.log2 := by
+    rw [Nat.mod_eq_sub_mod h1, Nat.mod_eq_of_lt (by omega)]
+  omega
+
+/-- the bit loops of mpz_n_pow_ui compute the power. -/
+theorem sqrMul_pow (b e : Nat) (he : e ≠ 0) : sqrMulLoop b (lowerBits e) b = b ^ e := by
+  rw [sqrMulLoop_spec b (lowerBits e) b 1 (by simp), lowerBits_spec e he]
+
+
+/-- n_pow_ui.c:206-218: powering inside one limb never wraps and keeps `rl · blimb^e`. -/
+theorem smallPow_spec : ∀ (f blimb rl e : Nat), 1 ≤ blimb → blimb < B → rl ≤ blimb → 1 ≤ e → e < 2 ^ f →
+    let r := smallPow f blimb rl e
+    r.2.1 * r.1 ^ r.2.2 = rl * blimb ^ e ∧ r.1 < B ∧ 1 ≤ r.1 ∧ r.2.1 < B ∧ (r.2.2 = 0 ∨ GMP_NUMB_HALFMAX < r.1)
+  | 0, blimb, rl, e, _, _, _, he1, he => by simp at he; omega
+  | f + 1, blimb, rl, e, hb1, hbB, hrl, he1, he => by
+    unfold smallPow
+    by_cases hsm : blimb ≤ GMP_NUMB_HALFMAX
+    · simp only [hsm, if_true]
+      have hH : GMP_NUMB_HALFMAX = 4294967295 := by unfold GMP_NUMB_HALFMAX; norm_num
+      have hsq : blimb * blimb ≤ 4294967295 * 4294967295 := Nat.mul_le_mul (by omega) (by omega)
+      have hrb : rl * blimb ≤ blimb * blimb := Nat.mul_le_mul_right _ hrl
+      have hsqB : blimb * blimb < B := by simp only [B_eq]; omega
+      have hm1 : (rl * blimb) % B = rl * blimb := Nat.mod_eq_of_lt (by omega)
+      have hm2 : (blimb * blimb) % B = blimb * blimb := Nat.mod_eq_of_lt hsqB
+      have hsplit : blimb ^ e = blimb ^ (e % 2) * (blimb * blimb) ^ (e / 2) := by
+        rw [← pow_two, ← pow_mul, ← pow_add]; congr 1; omega
+      by_cases he2 : e / 2 = 0
+      · simp only [he2, if_true]
+        have : e = 1 := by omega
+        subst this
+        simp only [Nat.one_mod, if_true, hm1, pow_zero, Nat.mul_one, pow_one, true_or, and_true]
+        exact ⟨trivial, hbB, hb1, by omega⟩
+      · simp only [he2, if_false]
+        rw [hm2]
+        have hb1' : 1 ≤ blimb * blimb := Nat.mul_pos hb1 hb1
+        have hrl' : (if e % 2 = 1 then (rl * blimb) % B else rl) ≤ blimb * blimb := by
+          split
+          · rw [hm1]; exact hrb
+          · exact le_trans hrl (Nat.le_mul_of_pos_left _ hb1)
+        have he' : e / 2 < 2 ^ f := by rw [pow_succ] at he; omega
+        have ih := smallPow_spec f (blimb * blimb) _ (e / 2) hb1' hsqB hrl' (by omega) he'
+        simp only at ih ⊢
+        obtain ⟨i1, i2, i3, i4, i5⟩ := ih
+        refine ⟨?_, i2, i3, i4, i5⟩
+        rw [i1, hsplit]
+        by_cases hodd : e % 2 = 1
+        · simp only [hodd, if_true, hm1, pow_one]; ring
+        · have : e % 2 = 0 := by omega
+          simp only [this, show ¬ (0 = 1) by decide, if_false, pow_zero]; ring
+    · simp only [hsm, if_false]
+      exact ⟨trivial, hbB, hb1, by omega, Or.inr (by omega)⟩
+
+
+/-- the one-limb path of mpz_n_pow_ui: `r · 2^tb' = blimb^e · 2^tb`. -/
+theorem npuOneLimb_spec (blimb e tb : Nat) (hb1 : 1 ≤ blimb) (hbB : blimb < B) (he1 : 1 ≤ e) (heB : e < B)
+    (htb : tb < 64) :
+    (npuOneLimb blimb e tb).1 * 2 ^ (npuOneLimb blimb e tb).2 = blimb ^ e * 2 ^ tb := by
+  have hs := smallPow_spec 64 blimb 1 e hb1 hbB hb1 he1 (by rw [← B_eq_two_pow]; exact heB)
+  simp only at hs
+  obtain ⟨h1, h2, h3, h4, h5⟩ := hs
+  unfold npuOneLimb
+  generalize smallPow 64 blimb 1 e = sp at *
+  obtain ⟨bl', rl, e'⟩ := sp
+  simp only at h1 h2 h3 h4 h5 ⊢
+  rw [Nat.one_mul] at h1
+  -- the merge of rtwos_bits into rl
+  have hmerge : ∀ p : Nat × Nat,
+      p = (if (tb != 0 && rl != 1 && rl >>> (64 - tb) == 0) = true then ((rl <<< tb) % B, 0) else (rl, tb)) →
+      p.1 * 2 ^ p.2 = rl * 2 ^ tb := by
+    intro p hp
+    by_cases hc : (tb != 0 && rl != 1 && rl >>> (64 - tb) == 0) = true
+    · rw [if_pos hc] at hp
+      simp only [Bool.and_eq_true, bne_iff_ne, ne_eq, beq_iff_eq] at hc
+      obtain ⟨⟨htb0, _⟩, hsh⟩ := hc
+      rw [Nat.shiftRight_eq_div_pow] at hsh
+      have hlt : rl < 2 ^ (64 - tb) := by
+        by_contra hge
+        have := Nat.div_pos (Nat.le_of_not_lt hge) (two_pow_pos _)
+        omega
+      have hfit : rl * 2 ^ tb < B := by
+        have : rl * 2 ^ tb < 2 ^ (64 - tb) * 2 ^ tb := Nat.mul_lt_mul_of_pos_right hlt (two_pow_pos _)
+        rw [← pow_add] at this
+        have e64 : 64 - tb + tb = 64 := by omega
+        rw [e64] at this; rw [B_eq_two_pow]; exact this
+      rw [hp]; simp only [pow_zero, Nat.mul_one]
+      rw [Nat.shiftLeft_eq, Nat.mod_eq_of_lt hfit]
+    · rw [if_neg hc] at hp; rw [hp]
+  generalize hp : (if (tb != 0 && rl != 1 && rl >>> (64 - tb) == 0) = true then ((rl <<< tb) % B, 0) else (rl, tb)) = p
+  have hm := hmerge p hp.symm
+  obtain ⟨rl', tb'⟩ := p
+  simp only at hm ⊢
+  by_cases he0 : e' = 0
+  · subst he0
+    simp only [if_true]
+    rw [hm, ← h1]; simp
+  · simp only [he0, if_false]
+    rw [sqrMul_pow bl' e' he0]
+    have : (if (rl' != 1) = true then bl' ^ e' * rl' else bl' ^ e') = bl' ^ e' * rl' := by
+      by_cases h : rl' = 1
+      · simp [h]
+      · simp [h]
+    rw [this, Nat.mul_assoc, hm, ← h1]; ring
+
+
+/-- the three size cases of mpz_n_pow_ui after the twos have been stripped (n_pow_ui.c:204-316, 393-467). -/
+def npuCore (bp : List Nat) (btwos e tb : Nat) : Nat × Nat :=
+  let blimb := bp.headD 1 >>> btwos
+  if bp.length = 1 then npuOneLimb blimb e tb
+  else if bp.length = 2 then
+    let bsecond := bp.getD 1 0
+    let blimb := if btwos != 0 then blimb ||| ((bsecond <<< (64 - btwos)) % B) else blimb
+    let bsecond := bsecond >>> btwos
+    if bsecond = 0 then npuOneLimb blimb e tb
+    else
+      let b := blimb + B * bsecond
+      (sqrMulLoop b (lowerBits e) b, tb)
+  else
+    let b := val bp >>> btwos
+    (sqrMulLoop b (lowerBits e) b, tb)
+
+theorem n_pow_ui_eq (bneg : Bool) (bp : List Nat) (e : Nat) :
+    n_pow_ui bneg bp e =
+      if e = 0 then 1 else if bp.length = 0 then 0 else
+      (let zl := (bp.takeWhile (· == 0)).length
+       let bp' := bp.drop zl
+       let btwos := ctz (bp'.headD 1)
+       let X := (e * btwos) % B
+       let p := npuCore bp' btwos e (X % 64)
+       let r := (p.1 <<< p.2) * B ^ (zl * e + X / 64)
+       if (bneg && decide (e % 2 = 1)) = true then -(r : Int) else (r : Int)) := rfl
+
+theorem npuCore_spec (bp : List Nat) (btwos e tb : Nat) (hL : Limbs bp) (m0 : Nat) (rest : List Nat)
+    (hbp : bp = m0 :: rest) (hm0 : m0 ≠ 0) (hbt : btwos = ctz m0) (he1 : 1 ≤ e) (heB : e < B) (htb : tb < 64) :
+    (npuCore bp btwos e tb).1 * 2 ^ (npuCore bp btwos e tb).2 = (val bp / 2 ^ btwos) ^ e * 2 ^ tb ∧
+    val bp = 2 ^ btwos * (val bp / 2 ^ btwos) ∧ btwos ≤ 63 := by
+  have hm0lt : m0 < B := by rw [hbp] at hL; exact (Limbs_cons.mp hL).1
+  obtain ⟨hc1, hc2⟩ := ctz_spec m0 hm0 (by rw [← B_eq_two_pow]; exact hm0lt)
+  rw [← hbt] at hc1 hc2
+  have hq : 0 < m0 >>> btwos := by
+    rcases Nat.eq_zero_or_pos (m0 >>> btwos) with h | h
+    · rw [h] at hc2; simp at hc2
+    · exact h
+  have hc63 : btwos ≤ 63 := by
+    by_contra hge
+    have h1 : 2 ^ 64 ≤ 2 ^ btwos := Nat.pow_le_pow_right (by decide) (by omega)
+    have h2 : 2 ^ btwos ≤ 2 ^ btwos * (m0 >>> btwos) := Nat.le_mul_of_pos_right _ hq
+    rw [B_eq_two_pow] at hm0lt
+    generalize 2 ^ btwos * (m0 >>> btwos) = prod at *
+    omega
+  have hpos : 0 < 2 ^ btwos := two_pow_pos _
+  have hB : B = 2 ^ btwos * 2 ^ (64 - btwos) := B_split btwos (by omega)
+  have hqlt : m0 >>> btwos < B := by
+    rw [Nat.shiftRight_eq_div_pow]; exact lt_of_le_of_lt (Nat.div_le_self _ _) hm0lt
+  -- the odd part of the whole vector
+  have hdivv : val bp / 2 ^ btwos = (m0 >>> btwos) + 2 ^ (64 - btwos) * val rest := by
+    rw [hbp, val_cons, hB, Nat.mul_assoc, Nat.add_mul_div_left _ _ hpos, Nat.shiftRight_eq_div_pow]
+  have hexact : val bp = 2 ^ btwos * (val bp / 2 ^ btwos) := by
+    rw [hdivv, hbp, val_cons, Nat.mul_add, ← hc1, ← Nat.mul_assoc, ← hB]
+  refine ⟨?_, hexact, hc63⟩
+  have hhead : bp.headD 1 = m0 := by rw [hbp]; rfl
+  unfold npuCore
+  simp only [hhead]
+  by_cases h1 : bp.length = 1
+  · simp only [h1, if_true]
+    have hrest : rest = [] := by rw [hbp] at h1; simpa using h1
+    rw [hdivv, hrest, val_nil, Nat.mul_zero, Nat.add_zero]
+    exact npuOneLimb_spec _ e tb hq hqlt he1 heB htb
+  · simp only [h1, if_false]
+    by_cases h2 : bp.length = 2
+    · simp only [h2, if_true]
+      obtain ⟨m1, hrest⟩ : ∃ m1, rest = [m1] := by
+        rw [hbp] at h2
+        match rest, h2 with
+        | [y], _ => exact ⟨y, rfl⟩
+      have hm1 : bp.getD 1 0 = m1 := by rw [hbp, hrest]; rfl
+      have hm1lt : m1 < B := by
+        rw [hbp, hrest] at hL; exact (Limbs_cons.mp (Limbs_cons.mp hL).2).1
+      rw [hm1]
+      -- the combined low limb
+      have hlow : (if (btwos != 0) = true then m0 >>> btwos ||| ((m1 <<< (64 - btwos)) % B) else m0 >>> btwos)
+          = m0 / 2 ^ btwos + 2 ^ (64 - btwos) * (m1 % 2 ^ btwos) % B ∧
+          (if (btwos != 0) = true then m0 >>> btwos ||| ((m1 <<< (64 - btwos)) % B) else m0 >>> btwos) < B := by
+        by_cases hb0 : btwos = 0
+        · subst hb0
+          simp only [bne_self_eq_false, Bool.false_eq_true, if_false, Nat.shiftRight_zero, pow_zero, Nat.div_one,
+            Nat.mod_one, Nat.mul_zero, Nat.zero_mod, Nat.add_zero]
+          exact ⟨trivial, hm0lt⟩
+        · have hne : (btwos != 0) = true := by simpa using hb0
+          simp only [hne, if_true]
+          rw [rshift_limb m0 m1 btwos hm0lt (by omega) hc63]
+          have h1' : m0 / 2 ^ btwos < 2 ^ (64 - btwos) := by
+            apply Nat.div_lt_of_lt_mul; rw [← hB]; exact hm0lt
+          have h2' : m1 % 2 ^ btwos < 2 ^ btwos := Nat.mod_lt _ hpos
+          have h3' : 2 ^ (64 - btwos) * (m1 % 2 ^ btwos + 1) ≤ 2 ^ (64 - btwos) * 2 ^ btwos := Nat.mul_le_mul_left _ h2'
+          rw [Nat.mul_add, Nat.mul_one, Nat.mul_comm (2 ^ (64 - btwos)) (2 ^ btwos), ← hB] at h3'
+          have hlt2 : 2 ^ (64 - btwos) * (m1 % 2 ^ btwos) < B := by omega
+          rw [Nat.mod_eq_of_lt hlt2]
+          exact ⟨rfl, by omega⟩
+      obtain ⟨hlv, hllt⟩ := hlow
+      generalize (if (btwos != 0) = true then m0 >>> btwos ||| ((m1 <<< (64 - btwos)) % B) else m0 >>> btwos) = bl at *
+      -- bodd = bl + B * (m1 >> btwos)
+      have hbodd : val bp / 2 ^ btwos = bl + B * (m1 >>> btwos) := by
+        rw [hdivv, hrest, val_cons, val_nil, Nat.mul_zero, Nat.add_zero, hlv, Nat.shiftRight_eq_div_pow,
+          Nat.shiftRight_eq_div_pow]
+        by_cases hb0 : btwos = 0
+        · subst hb0; simp [Nat.mod_one, B_eq_two_pow]
+        · have hlt2 : 2 ^ (64 - btwos) * (m1 % 2 ^ btwos) < B := by
+            have h2' : m1 % 2 ^ btwos < 2 ^ btwos := Nat.mod_lt _ hpos
+            have h3' : 2 ^ (64 - btwos) * (m1 % 2 ^ btwos + 1) ≤ 2 ^ (64 - btwos) * 2 ^ btwos := Nat.mul_le_mul_left _ h2'
+            rw [Nat.mul_add, Nat.mul_one, Nat.mul_comm (2 ^ (64 - btwos)) (2 ^ btwos), ← hB] at h3'
+            have := two_pow_pos (64 - btwos)
+            omega
+          rw [Nat.mod_eq_of_lt hlt2]
+          have hm := Nat.div_add_mod m1 (2 ^ btwos)
+          generalize m1 / 2 ^ btwos = a at *
+          generalize m1 % 2 ^ btwos = c at *
+          rw [← hm, hB]; ring
+      by_cases hs0 : m1 >>> btwos = 0
+      · simp only [hs0, if_true]
+        rw [hbodd, hs0, Nat.mul_zero, Nat.add_zero]
+        have hbl1 : 1 ≤ bl := by
+          rw [hlv]
+          have : 0 < m0 / 2 ^ btwos := by rw [← Nat.shiftRight_eq_div_pow]; exact hq
+          omega
+        exact npuOneLimb_spec bl e tb hbl1 hllt he1 heB htb
+      · simp only [hs0, if_false]
+        rw [sqrMul_pow _ e (by omega), hbodd]
+    · simp only [h2, if_false]
+      rw [sqrMul_pow _ e (by omega), Nat.shiftRight_eq_div_pow]
+
+
+/-- mpz_n_pow_ui (value-level model of mpz/n_pow_ui.c): the exact power, `0^0 = 1`.
+    `hfeas`: for `|b| ≥ 2` the result has at least `e` bits, so `e` must be below `2^58` for the result to be
+    addressable; this is what keeps `rtwos_bits = e * btwos` (unsigned long) from wrapping. -/
+theorem n_pow_ui_correct (bneg : Bool) (bp : List Nat) (e : Nat) (hb : Norm bp) (heB : e < B)
+    (hfeas : 2 ≤ val bp → e * 64 < B) :
+    n_pow_ui bneg bp e = (if bneg then -(val bp : Int) else (val bp : Int)) ^ e := by
+  rw [n_pow_ui_eq]
+  by_cases he0 : e = 0
+  · simp [he0]
+  · simp only [he0, if_false]
+    by_cases hb0 : bp.length = 0
+    · have : bp = [] := List.length_eq_zero_iff.mp hb0
+      subst this
+      simp only [List.length_nil, if_true, val_nil, Nat.cast_zero, neg_zero, ite_self]
+      rw [zero_pow he0]
+    · simp only [hb0, if_false]
+      have hbne : bp ≠ [] := fun h => hb0 (by rw [h]; rfl)
+      have hbpos := Norm_pos bp hb hbne
+      obtain ⟨hz1, hz2, hz3⟩ := strip_zero_limbs bp
+      generalize hk : (bp.takeWhile (· == 0)).length = zl at *
+      have hrest : bp.drop zl ≠ [] := by
+        intro h; rw [h] at hz1; simp at hz1; omega
+      obtain ⟨m0, rest, hmr⟩ := List.exists_cons_of_ne_nil hrest
+      have hm0 : m0 ≠ 0 := hz3 m0 rest hmr
+      have hhead : (bp.drop zl).headD 1 = m0 := by rw [hmr]; rfl
+      rw [hhead]
+      have hX64 : (e * ctz m0) % B % 64 < 64 := Nat.mod_lt _ (by decide)
+      obtain ⟨hcore, hexact, hc63⟩ := npuCore_spec (bp.drop zl) (ctz m0) e ((e * ctz m0) % B % 64)
+        (Limbs_drop hb.1 _) m0 rest hmr hm0 rfl (by omega) heB hX64
+      -- no wrap in e * btwos
+      have hnowrap : (e * ctz m0) % B = e * ctz m0 := by
+        apply Nat.mod_eq_of_lt
+        by_cases hc0 : ctz m0 = 0
+        · rw [hc0, Nat.mul_zero]; exact B_pos
+        · have h2 : 2 ≤ val bp := by
+            have h1 : 2 ^ 1 ≤ 2 ^ ctz m0 := Nat.pow_le_pow_right (by decide) (by omega)
+            have hq : 0 < val (bp.drop zl) / 2 ^ ctz m0 := by
+              rcases Nat.eq_zero_or_pos (val (bp.drop zl) / 2 ^ ctz m0) with h | h
+              · rw [h, Nat.mul_zero] at hexact
+                rw [hexact, Nat.mul_zero] at hz1; omega
+              · exact h
+            have h3 : 2 ^ ctz m0 ≤ 2 ^ ctz m0 * (val (bp.drop zl) / 2 ^ ctz m0) := Nat.le_mul_of_pos_right _ hq
+            have h4 : val (bp.drop zl) ≤ B ^ zl * val (bp.drop zl) := Nat.le_mul_of_pos_left _ (Nat.pow_pos B_pos)
+            omega
+          have := hfeas h2
+          have : e * ctz m0 ≤ e * 63 := Nat.mul_le_mul_left _ hc63
+          omega
+      rw [hnowrap] at hcore ⊢
+      generalize npuCore (bp.drop zl) (ctz m0) e (e * ctz m0 % 64) = p at *
+      generalize val (bp.drop zl) / 2 ^ ctz m0 = q at *
+      -- the magnitude
+      have hmag : (p.1 <<< p.2) * B ^ (zl * e + e * ctz m0 / 64) = val bp ^ e := by
+        rw [Nat.shiftLeft_eq, hcore, hz1, hexact, mul_pow, mul_pow, ← pow_mul, ← pow_mul, pow_add]
+        have h64 : 2 ^ (ctz m0 * e) = 2 ^ (e * ctz m0 % 64) * B ^ (e * ctz m0 / 64) := by
+          rw [B_eq_two_pow, ← pow_mul, ← pow_add]; congr 1
+          have := Nat.div_add_mod (e * ctz m0) 64
+          rw [Nat.mul_comm (ctz m0) e]; omega
+        rw [h64]; ring
+      rw [hmag]
+      cases bneg with
+      | false => simp
+      | true =>
+        simp only [Bool.true_and, decide_eq_true_eq, if_true]
+        by_cases hodd : e % 2 = 1
+        · simp only [hodd, if_true]
+          rw [(Nat.odd_iff.mpr hodd).neg_pow]; push_cast; rfl
+        · simp only [hodd, if_false]
+          rw [(Nat.even_iff.mpr (by omega)).neg_pow]; push_cast; rfl
+
+
 end Mpir.Powm
